@@ -233,7 +233,9 @@ func modelFresh(x *Run, fr *Frame, st *State, fn *ssa.Function, args []Val, site
 	if fr.inPure() {
 		return single(st, x.ufApply(st, "ext."+x.fnShort(fn), args, fn.Signature.Results()))
 	}
-	return single(st, x.freshResults(st, fn.Signature.Results()))
+	r := x.freshResults(st, fn.Signature.Results())
+	st.events = append(st.events, Event{Name: "call:" + fn.String(), Args: args, Ret: r})
+	return single(st, r)
 }
 
 func modelUF(name string) modelFn {
